@@ -755,7 +755,7 @@ func (s *ibSess) run(nOps, nReads int) {
 			s.c.Count("write raw with ROI")
 		case x < 9:
 			// commit and continue in a child (reads at the parent must not change)
-			if len(s.vers) < 4 {
+			if len(s.vers) < 5 {
 				s.postJSON("node/"+p.uuid+"/commit", map[string]string{"note": "c"})
 				p.locked = true
 				rr := s.postJSON("node/"+p.uuid+"/newversion", map[string]string{"note": "n"})
@@ -771,6 +771,19 @@ func (s *ibSess) run(nOps, nReads int) {
 				s.vers = append(s.vers, nv)
 				s.log("v%d committed; v%d = new version of it", p.v, nv.v)
 				s.c.Count("commit+newversion")
+				if r.Chance(0.6) && len(s.vers) < 5 {
+					// a sibling on a named branch: both stay open, so writes of one branch follow writes of the other
+					rb := s.postJSON("node/"+p.uuid+"/branch", map[string]string{"branch": fmt.Sprintf("side%d", len(s.vers)), "note": "b"})
+					if bu := jsonField(rb.Body, "child"); rb.OK() && bu != "" {
+						sv := &ibVer{uuid: bu, v: len(s.vers), blocks: map[[3]int][]byte{}, lo: p.lo, hi: p.hi}
+						for k, b := range p.blocks {
+							sv.blocks[k] = b
+						}
+						s.vers = append(s.vers, sv)
+						s.log("v%d = branch off v%d (sibling of v%d)", sv.v, p.v, nv.v)
+						s.c.Count("branch sibling")
+					}
+				}
 			}
 		default:
 			s.observe(s.vers[r.Intn(len(s.vers))], nReads)
